@@ -683,6 +683,8 @@ double Integrate_MC_Miser(std::function<double(std::vector<double>&, const doubl
 	std::random_device rd;
 	std::mt19937 PRNG(rd());
 
+	if(MC_Volume(region) == 0.0)   // a degenerate region: Miser's bisection would divide 0 by 0
+		return 0.0;
 	double dith = 0.0;
 	double average, var;
 	iran = 0;
